@@ -3,7 +3,7 @@ runtime model running the same script on the same (merged) input."""
 import json, os, re, shutil
 from vlib import core, gen, levelb
 
-ENV = {"VERIF_A": "alpha", "VERIF_N": "42", "VERIF_E": "", "VERIF_NEG": "-7"}   # VERIF_E: set, but empty
+ENV = {"VERIF_A": "alpha", "VERIF_N": "42", "VERIF_E": "", "VERIF_NEG": "-7", "VERIF_OCT": "010", "VERIF_HEX": "0x10"}   # VERIF_E: set, but empty
 
 
 def ctor_name(cfg):
